@@ -486,6 +486,12 @@ class InterpBase:
                 return VTuple(a.items + b.items)
             if isinstance(a, (VSeq, VTuple)) and isinstance(b, (VSeq, VTuple)):
                 return VSeq(z3.Concat(self.as_seq(a), self.as_seq(b)))
+            if isinstance(a, VRef) and isinstance(b, VRef) and isinstance(ex.heap[a.addr], (HList, HSymList)) \
+                    and isinstance(ex.heap[b.addr], (HList, HSymList)):
+                sa, sb = self.as_seq(a), self.as_seq(b)
+                new = z3.Concat(sa, sb)
+                self.fact_concat(new, [sa, sb])
+                return ex.alloc(HSymList(new))
         if isinstance(op, (ast.Add, ast.Sub, ast.Mult)):
             x, xr = self.as_num(a, node)
             y, yr = self.as_num(b, node)
@@ -637,6 +643,9 @@ class InterpBase:
                 and isinstance(g.target, ast.Tuple) and len(g.target.elts) == 2 and isinstance(e.elt, ast.Name) \
                 and isinstance(g.target.elts[0], ast.Name) and e.elt.id == g.target.elts[0].id:
             return self.keyset_comprehension(e, g, it, fr)
+        if items is None and kind in ('list', 'gen') and type(it).__name__ == 'VIterView' and it.kind in ('values', 'keys') \
+                and isinstance(g.target, ast.Name) and isinstance(e.elt, ast.Name) and e.elt.id == g.target.id:
+            return self.dictview_filter(e, g, it, fr)
         if items is None and kind in ('list', 'gen') and isinstance(g.target, ast.Name) and isinstance(e.elt, ast.Name) \
                 and e.elt.id == g.target.id and (self.is_symlist(it) or isinstance(it, VSeq)):
             return self.filter_comprehension(e, g, it, fr)
@@ -681,6 +690,40 @@ class InterpBase:
         pz = p if isinstance(p, z3.ExprRef) else z3.BoolVal(bool(p))
         dom = z3.Lambda([kv], z3.And(z3.Select(h.dom, kv), pz))
         return ex.alloc(HSymSet(dom))
+
+    def dictview_filter(self, e, g, it, fr):
+        """[v for v in d.values() if P(v)] over a symbolic dict: a symbolic list each of whose elements is a value of d
+        (as d was then) satisfying P (as evaluated then); the per-element fact is attached to the list and assumed
+        when an element is taken out of it"""
+        ex = self.ex
+        h = ex.heap[it.base.addr]
+        kv = z3.Const('__kbound__', Val)
+        sub = Frame(fr.fi, parent=fr, module=fr.module)
+        sub.self_cls, sub.owner = fr.self_cls, fr.owner
+        hint = h.vkind if isinstance(h.vkind, tuple) else None
+        if it.kind == 'values':
+            elem = z3.Select(h.map, kv)
+            sub.locals[g.target.id] = VSym(elem, hint=hint)
+        else:
+            elem = kv
+            sub.locals[g.target.id] = VSym(kv)
+        p = True
+        for c in g.ifs:
+            p = self.land(p, self.truth(self.eval(c, sub)))
+        pz = p if isinstance(p, z3.ExprRef) else z3.BoolVal(bool(p))
+        dom0 = h.dom
+        R = ex.fresh('filtered', SeqVal)
+        res = ex.alloc(HSymList(R))
+        hobj = ex.heap[res.addr]
+        hobj.elem_hint = hint
+
+        def elem_fact(ex_, term, kind=it.kind):
+            key = Val.vakey(term) if (kind == 'values' and hint and hint[0] == 'abs') else term
+            ex_.assume(z3.substitute(z3.And(z3.Select(dom0, kv), pz), (kv, key)))
+            if kind == 'values':
+                ex_.assume(term == z3.substitute(elem, (kv, key)))
+        hobj.elem_fact = elem_fact
+        return res
 
     def filter_comprehension(self, e, g, it, fr):
         """[x for x in S if P(x)] over a symbolic sequence: the result R is characterised, for every tracked
